@@ -43,9 +43,10 @@ int64_t nv_cur_g;          /* ... and the side taken there (-1: value missing) *
 int32_t nv_visits;         /* number of visits, saturating at 2 */
 _Bool nv_dbad;
 
-/* ASSUMED representation invariant of a fitted tree (do_fit appends the children of a split as a pair, sets m_next of
- * the parent to the position of that pair at that moment, and appends the leaf tables of a pair one after the other),
- * instantiated at every pair position the code reads; read() does not re-validate it.  Not needed (and not assumed):
+/* Representation invariant of a fitted tree, PROVED for what do_fit stores in dtree_fit.h (target dtree_do_fit: pair
+ * positions are the even positions; NV_REP_STORED there is this predicate with NV_IS_PAIR(k) = k even and inside m_nodes),
+ * ASSUMED here to hold of *this (no other member function writes m_nodes / m_tables except scale, which keeps the shape,
+ * and read(), which does not re-validate it); instantiated at every pair position the code reads.  Not needed (and not assumed):
  * acyclicity (only termination depends on it). */
 #define NV_REP_AT(self, k) ((k) < (self)->m_nodes.n && (self)->m_nodes.n - (k) >= 2 \
   && (((self)->m_nodes.p[k].m_next == 0) == ((self)->m_nodes.p[(k) + 1].m_next == 0)) \
